@@ -20,6 +20,9 @@ Forms == <<
     <<"n%", "=", "1", "+", "n%">>,
     <<"s$", "=", "{a}", "+", "s$">>,
     <<"LET", "x!", "=", "2.5">>,
+    <<"x!", "=", "1D300">>,
+    <<"n%", "=", "70000", "+", "1E10">>,
+    <<"sp", "1D39", ",", "{a}">>,
     <<"n%", "=", "2", "^", "n%">>,
     <<"n%", "=", "-", "n%", "MOD", "3">>,
     <<"n%", "=", "NOT", "n%", "AND", "1">>,
@@ -83,7 +86,7 @@ Forms == <<
     <<"KILL", "{f}">> >>
 
 Pool == {"PRINT", "IF", "THEN", "ELSE", "END", "CASE", "NEXT", "TO", "(", ")", ",", ";", "=", "-", "^", "+", ".", ":", NL,
-         "{s}", "1", "2.5", "70000", "n%", "s$", "x!", "arr", "rec", "lbl", "fn%", "sp", "AS", "NOT", "AND", "'", "&H", "1E"}
+         "{s}", "1", "2.5", "70000", "n%", "s$", "x!", "arr", "rec", "lbl", "fn%", "sp", "AS", "NOT", "AND", "'", "&H", "1E", "1D300", "-4.5D+99"}
 
 \* the mutations of a token sequence
 DropAt(t, i) == SubSeq(t, 1, i - 1) \o SubSeq(t, i + 1, Len(t))
